@@ -31,6 +31,11 @@ MsgStep(e) ==
     /\ Check("C16.assigned-trip-linked-to-train", c, l, (ok /\ cf) => C04_Links(ents2, r))
     /\ Check("C16.alerts-and-header-untouched", c, l, (ok /\ cf) => (C02_Alerts(ents2, r) /\ C02_Header(msg, r)))
     /\ Check("C16.unique-sorted", c, l, ok => (C07_UniqueTrips(r) /\ C07_TripsSorted(r)))
+    (* the same clauses under the names of the general properties they instantiate for a parse with an extension *)
+    /\ Check("C04.links-with-nyct-extension", c, l, (ok /\ cf) => C04_Links(ents2, r))
+    /\ Check("C07.unique-sorted-with-nyct-extension", c, l, ok => (C07_UniqueTrips(r) /\ C07_TripsSorted(r) /\ C07_UniqueVehicleIds(r)))
+    /\ Check("C07.order-independent-with-nyct-extension", c, l,
+             cf => \A k \in DOMAIN e.perms : e.perms[k].err = "" => C07_SameTripsVehiclesLinks(e.perms[k].res, r))
     /\ Check("C16.transparent-on-plain-entities", c, l,
              (ok /\ e.plainErr = "" /\ AllPlain(msg.ents) /\ ~SwapApplies(msg.ents, opts)) => r = e.plain)
 
